@@ -3,6 +3,6 @@ CONSTANTS
   Cap = 2
   Vals = {1, 2, 3}
 INVARIANTS IndexInv FullIffSizeCap SizeAgrees
-PROPERTIES Refines
+PROPERTIES Refines IdxRefines
 VIEW View
 CHECK_DEADLOCK FALSE
